@@ -22,7 +22,7 @@ RULE = ("one run = document + scheduled delivery + history with failing calls; f
 PROBES = ["failed_call", "failed_in_a_row", "failed_with_placeholder", "failed_version_undecided",
           "failed_obj_add", "legal_after_failure"]
 # process_line_queue ('flush') is not one of the calls C08 names (add, rename, remove, edit a field)
-MUTATING = ("flush", "add", "rm", "rename", "set_tag", "del_tag", "set_field", "readd_connected", "set_datatype", "header_add", "held_call", "grp_edit", "add_many", "rm_other_group")
+MUTATING = ("flush", "add", "rm", "rename", "set_tag", "del_tag", "set_field", "readd_connected", "set_datatype", "header_add", "held_call", "grp_edit", "add_many", "rm_other_group", "add_set_of_foreign_lines")
 
 
 def gen(streams, tier, i):
